@@ -15,10 +15,11 @@ import (
 
 // traceWriter writes one JSON object per line. The harness records; TLC judges.
 type traceWriter struct {
-	mu sync.Mutex
-	f  *os.File
-	w  *bufio.Writer
-	n  int
+	mu   sync.Mutex
+	f    *os.File
+	w    *bufio.Writer
+	n    int
+	sync bool
 }
 
 func newTrace(t testing.TB) *traceWriter {
@@ -31,7 +32,7 @@ func newTrace(t testing.TB) *traceWriter {
 	if err != nil {
 		t.Fatal(err)
 	}
-	return &traceWriter{f: f, w: bufio.NewWriterSize(f, 1<<20)}
+	return &traceWriter{f: f, w: bufio.NewWriterSize(f, 1<<20), sync: os.Getenv("VERIF_TRACE_SYNC") != ""}
 }
 
 func (tw *traceWriter) emit(v interface{}) {
@@ -46,6 +47,9 @@ func (tw *traceWriter) emit(v interface{}) {
 	tw.w.Write(b)
 	tw.w.WriteByte('\n')
 	tw.n++
+	if tw.sync {
+		tw.w.Flush() // a panic inside a library goroutine must not take the recorded behaviour with it
+	}
 }
 
 func (tw *traceWriter) close() {
